@@ -413,6 +413,171 @@ func run(c *lib.Ctx, s *eng.S, cs caseT) {
 	}
 }
 
+// ---------- table-driven evaluation: arguments in columns / uncorrelated subqueries, several rows per query ----------
+
+type groupT struct {
+	Rows  []caseT `json:"rows"`
+	Query string  `json:"query"`
+	Shape string  `json:"shape"`
+	Row   int     `json:"row_index"`
+	Got   string  `json:"table_result"`
+	Want  string  `json:"literal_result"`
+	Lit   string  `json:"literal_statement"`
+}
+
+func swapCase(s string) string {
+	b := []byte(s)
+	for i, ch := range b {
+		switch {
+		case ch >= 'a' && ch <= 'z':
+			b[i] = ch - 32
+		case ch >= 'A' && ch <= 'Z':
+			b[i] = ch + 32
+		}
+	}
+	return string(b)
+}
+
+// genGroup: rows 0..2 share one pattern string (match types c, i, c; subjects differ in case), row 3 is independent.
+func genGroup(r *lib.RNG) []caseT {
+	var base caseT
+	for {
+		base = gen(r)
+		if !base.Bad && isASCII(base.Subj) && len(base.Subj) >= 2 {
+			break
+		}
+	}
+	base.Pos, base.Occ = 1, 1
+	if r.Bool() {
+		base.Pos = r.Range(1, 2)
+		base.Occ = r.Range(1, 2)
+	}
+	rows := make([]caseT, 4)
+	for i := range rows {
+		rows[i] = base
+	}
+	rows[0].MT, rows[1].MT, rows[2].MT = "c", "i", "c"
+	if r.Bool() {
+		rows[0].MT, rows[1].MT, rows[2].MT = "i", "c", "i"
+	}
+	rows[1].Subj = swapCase(base.Subj)
+	if r.Bool() {
+		rows[1].Subj = base.Subj
+	}
+	rows[2].Subj = swapCase(base.Subj) + "ab"
+	for {
+		o := gen(r)
+		if !o.Bad && isASCII(o.Subj) && len(o.Subj) >= 2 {
+			o.Pos, o.Occ = base.Pos, base.Occ
+			if o.MT == "" {
+				o.MT = "c"
+			}
+			rows[3] = o
+			break
+		}
+	}
+	return rows
+}
+
+func cell(v interface{}) string { return eng.Val(v) }
+
+// groupCheck evaluates the REGEXP functions over a table holding the rows (arguments in columns, or an uncorrelated
+// scalar subquery as an argument) and compares every row with the same call written with literals.
+func groupCheck(c *lib.Ctx, s *eng.S, rows []caseT) {
+	s.MustExec("DELETE FROM rx", "DELETE FROM settings")
+	for i, r := range rows {
+		s.MustExec(fmt.Sprintf("INSERT INTO rx VALUES (%d, %s, %s, %s, %d, %d, %s)", i, q(r.Subj), q(r.Pat), q(r.MT), r.Pos, r.Occ, q(r.Repl)))
+	}
+	p0 := rows[0]
+	s.MustExec(fmt.Sprintf("INSERT INTO settings VALUES (%d, %s, %s)", p0.Pos, q(p0.Pat), q(p0.MT)))
+	type col struct {
+		shape string
+		tab   string                 // expression over rx
+		lit   func(r caseT) string   // the same call with the row's values as literals
+		rows  int                    // number of leading rows it applies to
+	}
+	P := q(p0.Pat)
+	cols := []col{
+		{"like/pattern+flags-columns", "REGEXP_LIKE(subj, pat, mt)", func(r caseT) string { return fmt.Sprintf("REGEXP_LIKE(%s, %s, %s)", q(r.Subj), q(r.Pat), q(r.MT)) }, 4},
+		{"like/flags-column", "REGEXP_LIKE(subj, " + P + ", mt)", func(r caseT) string { return fmt.Sprintf("REGEXP_LIKE(%s, %s, %s)", q(r.Subj), P, q(r.MT)) }, 3},
+		{"like/pattern-column", "REGEXP_LIKE(subj, pat, " + q(p0.MT) + ")", func(r caseT) string { return fmt.Sprintf("REGEXP_LIKE(%s, %s, %s)", q(r.Subj), q(r.Pat), q(p0.MT)) }, 4},
+		{"instr/all-columns", "REGEXP_INSTR(subj, pat, pos, occ, 0, mt)", func(r caseT) string {
+			return fmt.Sprintf("REGEXP_INSTR(%s, %s, %d, %d, 0, %s)", q(r.Subj), q(r.Pat), r.Pos, r.Occ, q(r.MT))
+		}, 4},
+		{"instr-end/all-columns", "REGEXP_INSTR(subj, pat, pos, occ, 1, mt)", func(r caseT) string {
+			return fmt.Sprintf("REGEXP_INSTR(%s, %s, %d, %d, 1, %s)", q(r.Subj), q(r.Pat), r.Pos, r.Occ, q(r.MT))
+		}, 4},
+		{"substr/all-columns", "REGEXP_SUBSTR(subj, pat, pos, occ, mt)", func(r caseT) string {
+			return fmt.Sprintf("REGEXP_SUBSTR(%s, %s, %d, %d, %s)", q(r.Subj), q(r.Pat), r.Pos, r.Occ, q(r.MT))
+		}, 4},
+		{"replace/all-columns", "REGEXP_REPLACE(subj, pat, repl, pos, occ, mt)", func(r caseT) string {
+			return fmt.Sprintf("REGEXP_REPLACE(%s, %s, %s, %d, %d, %s)", q(r.Subj), q(r.Pat), q(r.Repl), r.Pos, r.Occ, q(r.MT))
+		}, 4},
+		{"instr/flags-column", "REGEXP_INSTR(subj, " + P + ", 1, 1, 0, mt)", func(r caseT) string { return fmt.Sprintf("REGEXP_INSTR(%s, %s, 1, 1, 0, %s)", q(r.Subj), P, q(r.MT)) }, 3},
+		{"substr/flags-column", "REGEXP_SUBSTR(subj, " + P + ", 1, 1, mt)", func(r caseT) string { return fmt.Sprintf("REGEXP_SUBSTR(%s, %s, 1, 1, %s)", q(r.Subj), P, q(r.MT)) }, 3},
+		{"instr/subquery-position", "REGEXP_INSTR(subj, " + P + ", (SELECT pos FROM settings))", func(r caseT) string { return fmt.Sprintf("REGEXP_INSTR(%s, %s, %d)", q(r.Subj), P, p0.Pos) }, 3},
+		{"substr/subquery-position", "REGEXP_SUBSTR(subj, " + P + ", (SELECT pos FROM settings))", func(r caseT) string { return fmt.Sprintf("REGEXP_SUBSTR(%s, %s, %d)", q(r.Subj), P, p0.Pos) }, 3},
+		{"replace/subquery-position", "REGEXP_REPLACE(subj, " + P + ", 'X', (SELECT pos FROM settings))", func(r caseT) string { return fmt.Sprintf("REGEXP_REPLACE(%s, %s, 'X', %d)", q(r.Subj), P, p0.Pos) }, 3},
+		{"like/subquery-pattern", "REGEXP_LIKE(subj, (SELECT pat FROM settings))", func(r caseT) string { return fmt.Sprintf("REGEXP_LIKE(%s, %s)", q(r.Subj), P) }, 4},
+		{"like/subquery-flags", "REGEXP_LIKE(subj, pat, (SELECT mt FROM settings))", func(r caseT) string { return fmt.Sprintf("REGEXP_LIKE(%s, %s, %s)", q(r.Subj), q(r.Pat), q(p0.MT)) }, 4},
+		{"instr/subject-column-only", "REGEXP_INSTR(subj, " + P + ")", func(r caseT) string { return fmt.Sprintf("REGEXP_INSTR(%s, %s)", q(r.Subj), P) }, 3},
+	}
+	for _, cl := range cols {
+		c.Count("table:" + cl.shape)
+		c.PredChecked()
+		query := fmt.Sprintf("SELECT id, %s FROM rx WHERE id < %d ORDER BY id", cl.tab, cl.rows)
+		tr := s.Query(query)
+		for i := 0; i < cl.rows; i++ {
+			lit := "SELECT " + cl.lit(rows[i])
+			lr := s.Query(lit)
+			var got, want string
+			switch {
+			case tr.Err != nil:
+				got = "error: " + tr.Err.Error()
+			case i >= len(tr.Rows):
+				got = "missing row"
+			default:
+				got = cell(tr.Rows[i][1])
+			}
+			if lr.Err != nil {
+				want = "error: " + lr.Err.Error()
+				if tr.Err != nil {
+					continue // a failing row makes the whole table statement fail: nothing to compare
+				}
+			} else {
+				want = cell(lr.Rows[0][0])
+			}
+			if tr.Err != nil && lr.Err == nil {
+				// the table statement may fail because of ANOTHER row; only report if no row fails literally
+				anyLitErr := false
+				for j := 0; j < cl.rows; j++ {
+					if s.Query("SELECT "+cl.lit(rows[j])).Err != nil {
+						anyLitErr = true
+					}
+				}
+				if anyLitErr {
+					break
+				}
+			}
+			if got != want {
+				g := groupT{Rows: rows, Query: query, Shape: cl.shape, Row: i, Got: got, Want: want, Lit: lit}
+				id := c.CaseNoModel(g, "")
+				c.PredFail(id, "row-evaluation-differs/"+cl.shape, fmt.Sprintf("%s over rows %v: row %d gives %s, but %s gives %s",
+					query, rowsBrief(rows[:cl.rows]), i, got, lit, want), g)
+				break
+			}
+		}
+	}
+}
+
+func rowsBrief(rows []caseT) []string {
+	out := make([]string, len(rows))
+	for i, r := range rows {
+		out[i] = fmt.Sprintf("(%q,%q,%q,%d,%d)", r.Subj, r.Pat, r.MT, r.Pos, r.Occ)
+	}
+	return out
+}
+
 // nullableLoopBody reports whether the (generated, escape-free for parentheses) pattern contains a group that is
 // repeated by * + or {m,n} and whose body can match the empty string.
 func nullableLoopBody(pat string) bool {
@@ -456,7 +621,15 @@ func main() {
 			"Non-trivial = the pattern matches somewhere; distinct = distinct (pattern, subject, pos, occ, match type).")
 		e := eng.New("db")
 		s := e.Session()
+		s.MustExec("CREATE TABLE rx (id INT PRIMARY KEY, subj VARCHAR(100), pat VARCHAR(100), mt VARCHAR(8), pos INT, occ INT, repl VARCHAR(20))",
+			"CREATE TABLE settings (pos INT, pat VARCHAR(100), mt VARCHAR(8))")
 		if c.ReplayFile != "" {
+			var g groupT
+			lib.LoadReplay(c.ReplayFile, &g)
+			if len(g.Rows) > 0 {
+				groupCheck(c, s, g.Rows)
+				return
+			}
 			var cs caseT
 			lib.LoadReplay(c.ReplayFile, &cs)
 			run(c, s, cs)
@@ -480,8 +653,29 @@ func main() {
 		for _, cs := range corpus {
 			run(c, s, cs)
 		}
-		for i := len(corpus); i < c.N; i++ {
-			run(c, s, gen(c.R.Fork()))
+		fixedGroup := []caseT{
+			{Pat: "[a-z]+", Subj: "abc DEF", Repl: "X", Pos: 1, Occ: 1, MT: "c"},
+			{Pat: "[a-z]+", Subj: "ABC def", Repl: "X", Pos: 1, Occ: 1, MT: "i"},
+			{Pat: "[a-z]+", Subj: "ABC defab", Repl: "X", Pos: 1, Occ: 1, MT: "c"},
+			{Pat: "[0-9]+", Subj: "ab12 345", Repl: "Y", Pos: 1, Occ: 1, MT: "c"},
+		}
+		for _, cs := range fixedGroup {
+			run(c, s, cs)
+		}
+		groupCheck(c, s, fixedGroup)
+		for i := len(corpus) + len(fixedGroup); i < c.N; {
+			r := c.R.Fork()
+			if r.Chance(1, 12) {
+				g := genGroup(r)
+				for _, cs := range g {
+					run(c, s, cs)
+				}
+				groupCheck(c, s, g)
+				i += len(g)
+				continue
+			}
+			run(c, s, gen(r))
+			i++
 		}
 	})
 }
